@@ -51,6 +51,7 @@ struct RunState {
 	std::vector<model::Digest> expd;
 	std::vector<std::vector<int>> task_ops; // per phase run: op indices per task
 	int cur_op[MAXTASK + 1];
+	uint32_t thread_csr[MAXTASK + 1];
 	DsGuard G[MAXD];
 	bool in_concurrent = false;
 	std::string plan_json;
@@ -422,7 +423,10 @@ static void exec_op(RunState &rs, int i) {
 		const uint8_t *in = nullptr; size_t inlen = 0;
 		static const uint8_t empty = 0;
 		if (o.kind != LAST) { in = rs.inputb[o.input].empty() ? &empty : rs.inputb[o.input].data(); inlen = rs.inputb[o.input].size(); }
-		uint32_t env = o.env >= 0 ? (uint32_t)o.env : 0x1F80u;
+		// the calling thread's MXCSR is whatever the previous library call on this thread left (the pipelined
+		// interface is documented as free to change it), unless the op carries an explicit environment
+		uint32_t &thread_csr = rs.thread_csr[task <= MAXTASK ? task : 0];
+		uint32_t env = o.env >= 0 ? (uint32_t)o.env : thread_csr;
 		memset(res.digest, 0xEE, 32);
 		uint8_t *out = res.digest;
 		seam::lib_enter(&ctx);
@@ -434,6 +438,7 @@ static void exec_op(RunState &rs, int i) {
 		uint32_t after = seam::get_mxcsr();
 		seam::set_mxcsr(0x1F80);
 		seam::lib_exit();
+		thread_csr = (after & 0xFFC0u) | 0x1F80u; // keep control bits (rounding, FTZ, DAZ) with all exceptions masked, drop sticky flags
 		res.executed = true; res.mxcsr_before = env; res.mxcsr_after = after; res.requests = ctx.requests;
 		std::string vmf = flagstr((rs.Vflags[o.v] & ~128u));
 		if (o.kind == HASH && after != env) {
@@ -512,6 +517,7 @@ Report execute(const Plan &plan, const Options &opt) {
 	rs.plan = &plan; rs.rep = &rep;
 	memset(rs.C, 0, sizeof rs.C); memset(rs.D, 0, sizeof rs.D); memset(rs.V, 0, sizeof rs.V); memset(rs.Vflags, 0, sizeof rs.Vflags);
 	memset(rs.cur_op, -1, sizeof rs.cur_op);
+	for (auto &x : rs.thread_csr) x = 0x1F80u;
 	rs.ann = annotate(plan, N);
 	if (!rs.ann.valid) { rep.invalid = true; rep.invalid_reason = rs.ann.error; return rep; }
 	rep.probes = rs.ann.probes;
